@@ -3,6 +3,7 @@
 Feature-product family x transports (path, handle, string) x f_replace; shipped SBML files;
 third-party document shapes produced with libsbml.  Oracles: libsbml/cobra validator,
 content equality (15 significant digits), idempotence, independent libsbml extraction."""
+import re
 import glob
 import io
 import logging
@@ -437,6 +438,8 @@ def sig_of(d, transport, f_replace, kind):
             v = ("lb>default_ub" if b[0] > 1000 else "inf" if INF in (abs(b[0]), abs(b[1])) else
                  "beyond_default" if (b[0] < -1000 or b[1] > 1000) else "within")
         sig["value"] = v
+    if f_replace != "default":
+        sig["f_replace"] = f_replace
     return sig
 
 
@@ -472,7 +475,8 @@ def explore(ctx):
     for d in models:
         for t in TRANSPORTS:
             cases.append((d, t, "default"))
-        if not (set(iomodels.describe(d)) & {"met_id", "rxn_id", "gene_id", "group_id"}):
+        # without id replacement: every model all of whose identifiers are valid SBML SIds as they stand
+        if all(re.match(r"^[A-Za-z_][A-Za-z0-9_]*$", d[f]) for f in ("met_id", "rxn_id", "gene_id", "group_id")):
             cases.append((d, "path", "none"))
     pair_feats = ("bounds", "objective", "rule", "gene_id", "met_id", "rxn_id", "groups", "group_id", "annotation", "notes")
     for d in iomodels.feature_product(2, only=pair_feats):
